@@ -214,7 +214,7 @@ func claimCallbacks(p *Program) (adopters, releasers []*ssa.Function, sites int)
 					continue
 				}
 				cl := mc.Fn.(*ssa.Function)
-				for _, b := range cl.Blocks {
+				for _, b := range engine.BlocksInl(cl) {
 					for _, in := range b.Instrs {
 						if ci, ok := in.(ssa.CallInstruction); ok {
 							if g := engine.StaticFn(ci.Common()); g != nil && strings.HasPrefix(FK(g), engine.ModPrefix) {
@@ -264,7 +264,7 @@ func r04_2(r *Report, p *Program) {
 	reach := writeReachers(p)
 	for _, f := range adopters {
 		n := 0
-		for _, b := range f.Blocks {
+		for _, b := range engine.BlocksInl(f) {
 			for _, in := range b.Instrs {
 				if !isWriteCall(p, reach, in) {
 					continue
@@ -285,7 +285,7 @@ func r04_2(r *Report, p *Program) {
 	if ca := fn(r, p, rule, "third_party/kubernetes.BaseControllerRefManager.CanAdopt"); ca != nil {
 		ok, why := true, ""
 		direct := 0
-		for _, b := range ca.Blocks {
+		for _, b := range engine.BlocksInl(ca) {
 			for _, in := range b.Instrs {
 				if c, isC := in.(*ssa.Call); isC && strings.Contains(E(c.Common().Value), ".CanAdoptFunc") {
 					direct++
@@ -295,7 +295,7 @@ func r04_2(r *Report, p *Program) {
 		once := callsTo(ca, false, "sync.Once.Do")
 		inOnce := 0
 		for _, cl := range engine.Closures(ca) {
-			for _, b := range cl.Blocks {
+			for _, b := range engine.BlocksInl(cl) {
 				for _, in := range b.Instrs {
 					if c, isC := in.(*ssa.Call); isC && strings.Contains(E(c.Common().Value), ".CanAdoptFunc") {
 						inOnce++
@@ -318,7 +318,7 @@ func r04_2(r *Report, p *Program) {
 		if direct != 0 || inOnce != 1 || len(once) != 1 {
 			ok, why = false, sf("CanAdoptFunc must be called exactly once, inside sync.Once.Do (direct=%d inOnce=%d once=%d)", direct, inOnce, len(once))
 		}
-		for _, b := range ca.Blocks {
+		for _, b := range engine.BlocksInl(ca) {
 			for _, in := range b.Instrs {
 				if rt, isR := in.(*ssa.Return); isR && !strings.HasSuffix(E(rt.Results[0]), ".canAdoptErr") {
 					ok, why = false, "CanAdopt does not return the recorded error: "+E(rt.Results[0])
@@ -352,7 +352,7 @@ func r04_2(r *Report, p *Program) {
 	for _, key := range []string{"dynamic/controllerref.NewUnstructuredManager", "dynamic/controllerref.NewControllerRevisionManager"} {
 		if f := fn(r, p, rule, key); f != nil {
 			ok, why := false, "constructor does not store its canAdopt parameter in CanAdoptFunc"
-			for _, b := range f.Blocks {
+			for _, b := range engine.BlocksInl(f) {
 				for _, in := range b.Instrs {
 					if st, isS := in.(*ssa.Store); isS && strings.HasSuffix(E(st.Addr), ".CanAdoptFunc") {
 						if _, isP := st.Val.(*ssa.Parameter); isP {
@@ -369,7 +369,7 @@ func r04_2(r *Report, p *Program) {
 		ok, why := true, ""
 		// returns RecheckDeletionTimestamp(closure)
 		var cl *ssa.Function
-		for _, b := range caf.Blocks {
+		for _, b := range engine.BlocksInl(caf) {
 			for _, in := range b.Instrs {
 				if rt, isR := in.(*ssa.Return); isR {
 					c := callOf(rt.Results[0])
@@ -393,7 +393,7 @@ func r04_2(r *Report, p *Program) {
 			} else {
 				// success return guarded by UID equality between fresh and parent
 				fresh := engine.ResultValue(gets[0].Instr, 0)
-				for _, b := range cl.Blocks {
+				for _, b := range engine.BlocksInl(cl) {
 					for _, in := range b.Instrs {
 						rt, isR := in.(*ssa.Return)
 						if !isR || !engine.ReturnsNilError(rt) {
@@ -422,7 +422,7 @@ func r04_2(r *Report, p *Program) {
 		ok, why := len(rd.AnonFuncs) == 1, "expected one closure"
 		if ok {
 			cl := rd.AnonFuncs[0]
-			for _, b := range cl.Blocks {
+			for _, b := range engine.BlocksInl(cl) {
 				for _, in := range b.Instrs {
 					rt, isR := in.(*ssa.Return)
 					if !isR || !engine.ReturnsNilError(rt) {
@@ -607,7 +607,7 @@ func r04_4(r *Report, p *Program) {
 	r.Check(rule, FK(se)+"[check-dominates-manage]", p.InstrPos(mc), w == nil, "every path to ManageChildren runs the label-check loop", "ManageChildren reachable without the label check; "+pathWhy(w))
 	// non-matching ⇒ error return: from the !Matches edge, neither the loop header nor ManageChildren is reachable, and all returns carry an error
 	var from []engine.Point
-	for _, b := range se.Blocks {
+	for _, b := range engine.BlocksInl(se) {
 		for i := range b.Succs {
 			if l, ok := engine.EdgeLit(b, i); ok && !l.Pos && engine.SameValue(l.Cond, chk.Instr.Value()) {
 				from = append(from, engine.Point{B: b.Succs[i], I: 0})
